@@ -57,6 +57,7 @@ CONSTANTS Pats,        \* route patterns usable in builder calls
           MaxCorsCalls,\* bound on the calls that carry a Cors value (with_cors / with_cors_config)
           FullApi,     \* TRUE: threaded App (has with_default_subapp)
           ReqMethods, ReqHosts, ReqPaths,   \* request space evaluated by the invariants ("" = no Host header)
+          ReqOrigins,  \* values of the request's Origin header ("" = none); the code never looks at it
           Dev
 
 (***************************************************************************)
@@ -123,28 +124,28 @@ ACO == "Access-Control-Allow-Origin"
 ACM == "Access-Control-Allow-Methods"
 ACH == "Access-Control-Allow-Headers"
 ACC == "access-control-allow-credentials"      \* not a HeaderType of its own: Custom, lowercased
-H(n, v) == [n |-> n, v |-> v]
+RECURSIVE Join(_)
+Join(s) == IF Len(s) = 0 THEN "" ELSE IF Len(s) = 1 THEN s[1] ELSE s[1] \o ", " \o Join(Tail(s))
+H(n, v) == [n |-> n, v |-> v]       \* v: sequence of tokens
 HHas(hs, n) == \E i \in DOMAIN hs : hs[i].n = n
 HAdd(hs, n, v) == Append(hs, H(n, v))
 HReplace(hs, n, v) == Append(SelectSeq(hs, LAMBDA e : e.n # n), H(n, v))
-ValuesOf(hs, n) == LET sel == SelectSeq(hs, LAMBDA e : e.n = n) IN [i \in 1..Len(sel) |-> sel[i].v]
+\* a header value is kept as its sequence of tokens; on the wire it is the tokens joined with ", " (Join)
+ValuesOf(hs, n) == LET sel == SelectSeq(hs, LAMBDA e : e.n = n) IN [i \in 1..Len(sel) |-> Join(sel[i].v)]
 \* the observable: per Access-Control-* name the values in wire order (same-name headers keep insertion
 \* order: Headers::iter sorts stably by name); z = any other access-control-* header (never expected)
 AC(hs) == [o |-> ValuesOf(hs, ACO), m |-> ValuesOf(hs, ACM), h |-> ValuesOf(hs, ACH), c |-> ValuesOf(hs, ACC), z |-> <<>>]
 NoAC == [o |-> <<>>, m |-> <<>>, h |-> <<>>, c |-> <<>>, z |-> <<>>]
 
-RECURSIVE Join(_)
-Join(s) == IF Len(s) = 0 THEN "" ELSE IF Len(s) = 1 THEN s[1] ELSE s[1] \o ", " \o Join(Tail(s))
-
 \* what the handler of kind k puts on its response itself (in this order)
 HandlerHeaders(k) ==
-  CASE k = "plain"  -> << H("Content-Type", "text/plain") >>
-    [] k = "ownO"   -> << H(ACO, "http://own.test"), H("Content-Type", "text/plain") >>
-    [] k = "ownM"   -> << H(ACM, "PATCH") >>
-    [] k = "ownH"   -> << H("Content-Type", "text/plain"), H(ACH, "x-own") >>
-    [] k = "ownAll" -> << H(ACH, "x-own"), H(ACO, "http://own.test"), H(ACC, "true"), H(ACM, "PATCH") >>
-    [] k = "cred"   -> << H(ACC, "true") >>
-    [] k = "dupO"   -> << H(ACO, "http://own1.test"), H("Content-Type", "text/plain"), H(ACO, "http://own2.test") >>
+  CASE k = "plain"  -> << H("Content-Type", <<"text/plain">>) >>
+    [] k = "ownO"   -> << H(ACO, <<"http://own.test">>), H("Content-Type", <<"text/plain">>) >>
+    [] k = "ownM"   -> << H(ACM, <<"PATCH">>) >>
+    [] k = "ownH"   -> << H("Content-Type", <<"text/plain">>), H(ACH, <<"x-own">>) >>
+    [] k = "ownAll" -> << H(ACH, <<"x-own">>), H(ACO, <<"http://own.test">>), H(ACC, <<"true">>), H(ACM, <<"PATCH">>) >>
+    [] k = "cred"   -> << H(ACC, <<"true">>) >>
+    [] k = "dupO"   -> << H(ACO, <<"http://own1.test">>), H("Content-Type", <<"text/plain">>), H(ACO, <<"http://own2.test">>) >>
 AllHKinds == {"plain", "ownO", "ownM", "ownH", "ownAll", "cred", "dupO"}
 
 \* Cors::set_headers, statement by statement
@@ -153,18 +154,18 @@ AddOrReplace(hs, n, v) ==
 Absent(hs, n) == "DuplicateHandler" \in Dev \/ "OverrideHandler" \in Dev \/ ~HHas(hs, n)
 SetHeadersImpl(c, hs) ==
   LET h1 == IF Absent(hs, ACO)
-            THEN (IF c.ow THEN AddOrReplace(hs, ACO, "*")
-                  ELSE IF c.ol # <<>> THEN AddOrReplace(hs, ACO, IF "OriginsLastOnly" \in Dev THEN c.ol[Len(c.ol)] ELSE Join(c.ol))
+            THEN (IF c.ow THEN AddOrReplace(hs, ACO, <<"*">>)
+                  ELSE IF c.ol # <<>> THEN AddOrReplace(hs, ACO, IF "OriginsLastOnly" \in Dev THEN <<c.ol[Len(c.ol)]>> ELSE c.ol)
                   ELSE hs)
             ELSE hs
       h2 == IF Absent(h1, ACM)
-            THEN (IF ~c.mw /\ c.ml # <<>> THEN AddOrReplace(h1, ACM, Join(c.ml))
-                  ELSE IF c.mw /\ "MethodsWildcardStar" \in Dev THEN AddOrReplace(h1, ACM, "*")
+            THEN (IF ~c.mw /\ c.ml # <<>> THEN AddOrReplace(h1, ACM, c.ml)
+                  ELSE IF c.mw /\ "MethodsWildcardStar" \in Dev THEN AddOrReplace(h1, ACM, <<"*">>)
                   ELSE h1)
             ELSE h1
       h3 == IF Absent(h2, IF "HeadersGuardChecksMethods" \in Dev THEN ACM ELSE ACH)
-            THEN (IF c.hw THEN AddOrReplace(h2, ACH, "*")
-                  ELSE IF c.hl # <<>> THEN AddOrReplace(h2, ACH, Join(c.hl))
+            THEN (IF c.hw THEN AddOrReplace(h2, ACH, <<"*">>)
+                  ELSE IF c.hl # <<>> THEN AddOrReplace(h2, ACH, c.hl)
                   ELSE h2)
             ELSE h2
   IN h3
@@ -298,15 +299,20 @@ GetHandler(a, rq) ==
 SubOf(a, s) == IF s = 0 THEN a.def ELSE a.hosts[s]
 RouteOf(a, g) == SubOf(a, g.sub).routes[g.idx]
 
-Respond(a, rq) ==
+\* the header list of the answer (only its Access-Control-* entries matter here)
+RespondHs(a, rq) ==
   LET g == GetHandler(a, rq) IN
-  IF ~g.hit THEN [status |-> 404, ac |-> IF "ErrorGetsCors" \in Dev /\ a.def.cset THEN AC(SetHeadersImpl(a.def.cors, <<>>)) ELSE NoAC, at |-> 0]
+  IF ~g.hit THEN (IF "ErrorGetsCors" \in Dev /\ a.def.cset THEN SetHeadersImpl(a.def.cors, <<>>) ELSE <<>>)
   ELSE LET r == RouteOf(a, g) IN
        IF rq.m = "OPTIONS"
-       THEN [status |-> 204, at |-> 0,
-             ac |-> IF "OptionsNoCors" \in Dev THEN NoAC
-                    ELSE AC(SetHeadersImpl(r.cors, IF "OptionsRunsHandler" \in Dev THEN HandlerHeaders(r.hk) ELSE <<>>))]
-       ELSE [status |-> 200, at |-> r.at, ac |-> AC(SetHeadersImpl(r.cors, HandlerHeaders(r.hk)))]
+       THEN (IF "OptionsNoCors" \in Dev THEN <<>>
+             ELSE SetHeadersImpl(r.cors, IF "OptionsRunsHandler" \in Dev THEN HandlerHeaders(r.hk) ELSE <<>>))
+       ELSE SetHeadersImpl(r.cors, HandlerHeaders(r.hk))
+Respond(a, rq) ==
+  LET g == GetHandler(a, rq) IN
+  [status |-> IF ~g.hit THEN 404 ELSE IF rq.m = "OPTIONS" THEN 204 ELSE 200,
+   ac |-> AC(RespondHs(a, rq)),
+   at |-> IF g.hit /\ rq.m # "OPTIONS" THEN RouteOf(a, g).at ELSE 0]
 
 (***************************************************************************)
 (* The property.                                                           *)
@@ -329,7 +335,7 @@ ExpectedStatus(a, rq) == IF ~GetHandler(a, rq).hit THEN 404 ELSE IF rq.m = "OPTI
 Expected(a, cs, rq) == [status |-> ExpectedStatus(a, rq), ac |-> ExpectedCorsHeaders(a, cs, rq),
                         at |-> IF GetHandler(a, rq).hit /\ rq.m # "OPTIONS" THEN RouteOf(a, GetHandler(a, rq)).at ELSE 0]
 
-Requests == { [m |-> m, host |-> h, path |-> x] : m \in ReqMethods, h \in ReqHosts, x \in ReqPaths }
+Requests == { [m |-> m, host |-> h, path |-> x, origin |-> o] : m \in ReqMethods, h \in ReqHosts, x \in ReqPaths, o \in ReqOrigins }
 
 AllSubs(a) == {a.def} \cup {a.hosts[i] : i \in DOMAIN a.hosts} \cup (IF a.pon THEN {a.pend} ELSE {})
 
@@ -363,6 +369,60 @@ Inv_OptionsRouteOnly ==
   \A rq \in Requests :
     LET g == GetHandler(app, rq) IN
     (g.hit /\ rq.m = "OPTIONS") => Respond(app, rq).ac = IntentHeaders(RouteOf(app, g).cors, NoAC)
+
+(***************************************************************************)
+(* THE STATEMENT ITSELF, policy-free (second level of judging).            *)
+(* C01 says only: the response carries "the matched route's CORS headers". *)
+(* Everything above is today's code and the crate docs, and is stricter.   *)
+(* An observation that the model above cannot explain is judged here; what *)
+(* is accepted here is spec drift, not a violation.  Named leniencies:     *)
+(*   L-Status     status of the answer (204 / 200 for a preflight, ...) and *)
+(*                which handler ran (`at`): not compared (C04 / HttpConn)  *)
+(*   L-Unmatched  a request that matches no route: nothing is demanded     *)
+(*   L-Tokens     a list value is compared as the SET of its tokens: lines *)
+(*                of one name merged, split at ",", trimmed; separator,    *)
+(*                order, repetition, one line or several are free; header  *)
+(*                names inside Access-Control-Allow-Headers ignore case    *)
+(*   L-Names      case / order of the header lines, any other header (incl.*)
+(*                Access-Control-Allow-Credentials, Max-Age, Vary) free    *)
+(*   L-MethodsAny wildcard methods: no header ("implied") or "*"           *)
+(*   L-Echo       origins: the configured set, or (MDN's way) the request's*)
+(*                Origin echoed when it is allowed / nothing when it is not*)
+(*                or when the request has no Origin; "*" may be answered   *)
+(*                by echoing the request's Origin                          *)
+(*   L-Own        a name the route's handler sets itself may carry the     *)
+(*                handler's value, the route's, or both (also on OPTIONS)  *)
+(* What stays demanded: on a matched route the tokens of Allow-Origin /    *)
+(* -Methods / -Headers are the route's configured ones (history-derived    *)
+(* IntendedCors) - none missing, none that is not configured.              *)
+(***************************************************************************)
+Range(q) == {q[i] : i \in DOMAIN q}
+LowerTable == [x \in {"Content-Type"} |-> "content-type"] @@ [x \in {"Authorization"} |-> "authorization"]
+Lower(x) == IF x \in DOMAIN LowerTable THEN LowerTable[x] ELSE x
+TokensOf(hs, n) == UNION {Range(hs[i].v) : i \in {j \in DOMAIN hs : hs[j].n = n}}
+TokAC(hs) == [o |-> TokensOf(hs, ACO), m |-> TokensOf(hs, ACM), h |-> {Lower(t) : t \in TokensOf(hs, ACH)}]
+
+RouteAltO(c, origin) ==
+  IF c.ow THEN {{"*"}} \cup (IF origin # "" THEN {{origin}} ELSE {})
+  ELSE IF c.ol # <<>> THEN {Range(c.ol)} \cup {IF origin # "" /\ origin \in Range(c.ol) THEN {origin} ELSE {}}
+  ELSE {{}}
+RouteAltM(c) == IF c.mw THEN {{}, {"*"}} ELSE {Range(c.ml)}
+RouteAltH(c) == IF c.hw THEN {{"*"}} ELSE {{Lower(t) : t \in Range(c.hl)}}
+WithOwn(alts, own) == IF own = {} THEN alts ELSE alts \cup {own} \cup {x \cup own : x \in alts}
+AcceptSets(a, cs, rq) ==
+  LET g == GetHandler(a, rq) IN
+  IF ~g.hit THEN [free |-> TRUE, o |-> {}, m |-> {}, h |-> {}]
+  ELSE LET r == RouteOf(a, g)
+           c == IntendedCors(cs, SubOf(a, g.sub).sid, r)
+           own == TokAC(HandlerHeaders(r.hk))
+       IN [free |-> FALSE, o |-> WithOwn(RouteAltO(c, rq.origin), own.o), m |-> WithOwn(RouteAltM(c), own.m),
+           h |-> WithOwn(RouteAltH(c), own.h)]
+\* tok = [o, m, h]: the token sets observed
+Acceptable(a, cs, rq, tok) ==
+  LET A == AcceptSets(a, cs, rq) IN A.free \/ (tok.o \in A.o /\ tok.m \in A.m /\ tok.h \in A.h)
+
+\* the code model is one of the behaviours the statement allows
+Inv_Judge == \A rq \in Requests : Acceptable(app, calls, rq, TokAC(RespondHs(app, rq)))
 
 \* the fold of the Cors builder equals the documented meaning of the chain (evaluated once, on the catalogue)
 Inv_CorsValues == calls = <<>> => \A c \in CorsCat : WellFormedCorsOps(c) /\ BuildCors(c) = MeaningOf(c)
